@@ -1,1 +1,6 @@
+import CatiiProps.C08
+import CatiiProps.C09
+import CatiiProps.C10
+import CatiiProps.C11
+import CatiiProps.C12
 import CatiiProps.C19
